@@ -94,6 +94,7 @@ type assertion struct {
 }
 
 type oblPart struct {
+	ghost   map[string]string // ghost terms at this point (for counterexample extraction)
 	blk     int
 	nassert int
 	reach   string
@@ -195,6 +196,7 @@ type fnExec struct {
 	inlineCount int
 	inlineStack []*ssa.Function
 	oblPrefix string
+	curState  *state
 }
 
 type inlineCtx struct {
@@ -613,6 +615,12 @@ func (fx *fnExec) addObl(kind, anchor string, props []string, goal string, pos t
 	name := fx.g.relKey(fx.rootFn()) + ":" + kind + ":" + fx.oblPrefix + anchor
 	name = fx.g.pkgShort(fx.fn) + "." + name
 	part := oblPart{blk: fx.curBlk, nassert: len(fx.asserts), reach: fx.reach[fx.ck], neg: not(goal), pos: pos}
+	if fx.curState != nil {
+		part.ghost = map[string]string{}
+		for k, v := range fx.curState.ghost {
+			part.ghost[k] = v
+		}
+	}
 	if o, ok := fx.oblByName[name]; ok {
 		o.Parts = append(o.Parts, part)
 		return o
@@ -938,6 +946,10 @@ func (fx *fnExec) run() (err error) {
 
 	for _, sc := range fx.ct.Schemas {
 		why := fx.g.schemaMismatch(fx, sc.Anchor, sc.Target)
+		if strings.HasPrefix(why, "cannot resolve") {
+			fx.warnings = append(fx.warnings, fmt.Sprintf("%s: schema clause [%s]: %s", fx.fn.String(), sc.Label, why))
+			continue
+		}
 		goal := "true"
 		if why != "" {
 			goal = "false"
